@@ -12,6 +12,23 @@ func init() { gens["C09"] = genC09 }
 func genC09(tier string, r *rng, emit func(string)) {
 	thorough := tier == "thorough"
 	genCLin(emit)
+	// general tensor contraction: every valid pair of axis lists of small rank-2..4 operands
+	// (one and two contracted axes), plus misfits and the all-axes contraction
+	for _, dt := range []string{"f64", "f32"} {
+		type tm struct{ sa, sb, aa, ab string }
+		for _, c := range []tm{
+			{"2,3", "3,2", "1", "0"}, {"2,3", "2,3", "0", "0"}, {"2,3", "2,3", "1", "1"}, {"2,3", "3,4", "1", "0"},
+			{"2,3,4", "4,2", "2", "0"}, {"2,3,4", "3,2", "1", "0"}, {"2,3,4", "2,5", "0", "0"}, {"2,3,4", "4,3", "2,1", "0,1"},
+			{"2,3,4", "3,4,2", "1,2", "0,1"}, {"2,3,2,2", "2,2", "3", "0"}, {"2,3,2,2", "3,2", "1", "0"}, {"2,3,4,5", "6,2", "0", "1"},
+			{"2,3", "2,3", "0,1", "0,1"}, {"3", "3", "0", "0"}, {"3", "3,2", "0", "0"}, {"2,3", "3", "1", "0"},
+			{"2,3", "4,2", "1", "0"}, {"2,3", "3,2", "1", "1"}, {"2,3", "3,2", "1,0", "0"},
+		} {
+			emit(fmt.Sprintf("prog %s new:rm:%s:1;new:rm:%s:2;tmul:0:1:%s:%s", dt, c.sa, c.sb, c.aa, c.ab))
+			if dt == "f64" && len(strings.Split(c.sa, ",")) >= 2 {
+				emit(fmt.Sprintf("prog %s new:rm:%s:1;new:rm:%s:2;T:0:_;tmul:1:1:%s:%s", dt, c.sa, c.sb, c.ab, c.ab))
+			}
+		}
+	}
 	// the dispatching Dot (matrix.vector, vector.matrix, matrix.matrix) and products given BOTH a reuse
 	// and an incr tensor, on contiguous and lazily transposed operands
 	for _, dt := range []string{"f64", "f32"} {
